@@ -120,8 +120,9 @@ def r022(repo, res):
                     vo = U(s.value)
                     okv = vo.startswith("self.edge_children[")
                     res.require(ok and okv, "R02.2", f"variational.{q} rewrites mutation nodes only for unphased singletons", f"`{U(s)}`: mask originates from {sorted(mo)}", repo.loc(f, s), f"mask {sorted(mo)}; value {vo}")
-    if n_init != 1:
-        raise AnalysisError(f"R02.2: expected one initialisation of self.mutation_nodes, found {n_init}")
+    if n_init == 0:
+        raise AnalysisError("R02.2: no initialisation of self.mutation_nodes found (anchor vanished)")
+    # (a second whole-array binding outside __init__ was already reported above as a violation)
     # kernels receive mutation_nodes? they must not (no in-place change elsewhere)
     for q, f in repo.mods["variational"].funcs.items():
         for n in own_nodes(f):
